@@ -220,7 +220,7 @@ def run_cases(run, pt, tl, cases):
 
 
 FIXED = [
-    # D19 (fixes/composite-missing-data.patch): Ra has b_c but no density – has_sld() is false
+    # D22 (fixes/composite-missing-data.patch): Ra has b_c but no density – has_sld() is false
     dict(materials=[[(1, (88, 0, 0)), (2, (8, 0, 0))]], weights=[1.0], density=5.0, mode="scalar", ws=[1.798]),
     dict(materials=[[(2, (1, 0, 0)), (1, (8, 0, 0))], [(1, (88, 226, 0))]], weights=[1.0, 0.0], density=1.0, mode="vector", ws=[1.0, 2.0]),
     dict(materials=[[(1, (43, 98, 0))]], weights=[1.0], density=1.0, mode="scalar", ws=[1.798]),
